@@ -19,6 +19,21 @@
 // presence of printed annotations / a "Failure:" line are compared with the Lean exit-status
 // model; the oracle checks 0 / 100 / other against what was printed and the cross-format
 // agreement of the printed annotations.
+//
+// Part (iii), errvalues.go: Go error VALUES through the extracted wrapError /
+// handleFileAnnotationSetRetError (two leaves are produced by bufmodule itself on planted sources:
+// the header scan's error, ModuleDeps()'s import-not-found).
+//
+// Part (iv), phases.go: every phase that can reject a source file (header scan, lexer, parser,
+// linker) x the file it is in (target, sibling of the same package, other package / module) x the
+// input form (directory, ".", file, file.proto#include_package_files=true, --path, module
+// directory, archive) x lint / build / breaking (either side) / ls-files / dep graph / format x
+// every --error-format.
+//
+// Part (v), fmtwrite.go: `buf format -w` / `-o` / `-d` at the level of file contents (inputs that
+// shrink, keep their length or grow when formatted; read-only and symlinked files; --path /
+// --exclude-path; existing -o locations): every file on disk byte for byte against the
+// formatter's own output, the second run clean.
 package main
 
 import (
@@ -765,18 +780,44 @@ func main() {
 		panic(err)
 	}
 	defer os.RemoveAll(scratch)
+	_ = os.Chmod(scratch, 0o755) // part (v) runs some buf processes under another user id
 	procRuns := 0
-	for _, w := range fixedWorkspaces() {
+	// parts (iv) and (v) are batches of independent buf processes: they run in the background
+	// while part (ii) goes through its workspaces; their evaluation (and their case indices)
+	// come after part (ii)
+	fixed := fixedWorkspaces()
+	nWs := run.N(100, 800)
+	base := idx + len(fixed) + nWs
+	ph := phasePrepare(run, rnd.Fork(4_000_000), base, bufBin, scratch)
+	wr := writePrepare(run, rnd.Fork(5_000_000), base+ph.n, bufBin, scratch)
+	background := make(chan struct{})
+	go func() {
+		parallel(10, append(append([]func(){}, ph.procs...), wr.procs...))
+		close(background)
+	}()
+	for _, w := range fixed {
 		w := w
 		do(func() { procRuns += binaryCase(run, idx, w, bufBin, scratch) })
 	}
-	nWs := run.N(100, 800)
 	for i := 0; i < nWs; i++ {
 		r := rnd.Fork(uint64(1_000_000 + i))
 		w := genWorkspace(r, i)
 		do(func() { procRuns += binaryCase(run, idx, w, bufBin, scratch) })
 	}
-	run.Set("process_runs", procRuns)
 	run.Set("part2_seconds", time.Since(t0).Seconds())
+	if idx != base {
+		panic(fmt.Sprintf("case index %d after part (ii), expected %d", idx, base))
+	}
+	t4 := time.Now()
+	<-background
+	run.Set("part45_wait_seconds", time.Since(t4).Seconds())
+	// part (iv): every phase that can reject a source file x location x input form x command
+	ph.eval()
+	// part (v): buf format -w / -o / -d at the level of file contents
+	wr.eval()
+	idx += ph.n + wr.n
+	procRuns += ph.runs + wr.runs
+	run.Set("part45_seconds", time.Since(t4).Seconds())
+	run.Set("process_runs", procRuns)
 	_ = sort.Strings
 }
